@@ -6,12 +6,12 @@ SPEC = {
                  '"the replacement sees the caller\'s values, the caller sees the replacement\'s results"',
     'claim': 'for every function of the generated corpus (all parameter lists and all result lists of length <= 2 over a 14-type alphabet crossing every '
              'register/stack boundary of the Go ABI, int^0..12, float64^0..17, 26 mixed threshold shapes up to 22 parameters, 5 variadic shapes, result lists '
-             'up to 10 ints / 16 floats), every argument vector of a 3-value-per-type domain (all vectors for arity <= 2; all-pattern, all-zero and one '
-             'boundary per position above), replacement installed by Apply(top-level func), Apply(closure) or Return(values), called directly from another '
+             'up to 10 ints / 16 floats), every argument vector of a 3-value-per-type domain (all vectors for arity <= 2; above: all-pattern, all-zero and one '
+             'boundary per position, thorough also all-boundary and one zero per position), replacement installed by Apply(top-level func), Apply(closure) or Return(values), called directly from another '
              'package, through a func value, deferred, on a new goroutine, through reflect and from generic library code, with no event / GC / stack move / '
              'both / builder dropped + GC between apply and the calls and again inside the replacement: the replacement runs instead of the original with '
              'bit-identical arguments, the caller receives exactly its results, and after Reset the original runs again with its original results',
-    'note': 'bounded corpus (not all Go signatures); result lists of length 3 only in the thorough tier (42 shapes); generic functions are not in C01\'s statement; '
+    'note': 'bounded corpus of 537 functions (not all Go signatures); quick = 470 of them (arity <= 2, thresholds, variadics), thorough adds the 42 result lists of length 3, the remaining int^n / float64^n and more vectors; generic functions are not in C01\'s statement; '
             'Return() without values on result-less functions is executed but not judged',
     'jobs': [{'bin': 'c01', 'shards': 16}],
     'rule': 'engine E+H. Case = (corpus function, argument-kind vector, result-kind vector, replacement kind in {apply-func, apply-closure, return}, '
